@@ -134,6 +134,12 @@ func (e *Engine) verifyCase(fn *ssa.Function, con *Contract, ci int, sc *SpecCas
 		ctx.bind[k] = v
 	}
 	// requires of the first case are shared by all cases
+	// taint sources declared by the contract (C18)
+	for _, td := range con.Taints {
+		if hasTag(td.Tags, e.curTags) {
+			ctx.taintExpr(td.E, td.Bits)
+		}
+	}
 	reqs := append([]*Clause{}, con.Cases[0].Requires...)
 	if ci > 0 {
 		reqs = append(reqs, sc.Requires...)
